@@ -25,6 +25,8 @@ const BODIES: &[&str] = &[
     "use b::a; use a::b;\nfn h ( ) { }\n",
     "// only a comment\n",
     "fn ok() {}\n",
+    "fn crlf(){let x=1;}\r\nfn second ( ) { }\r\n",
+    "\u{feff}fn bom(){let x=1;}\n",
     "fn long(){let v=vec![1,2,3,4,5,6,7,8,9,10,11,12,13,14,15,16,17,18,19,20,21,22,23,24,25,26,27,28,29,30,31,32,33,34,35,36,37];}\n",
 ];
 
